@@ -84,14 +84,53 @@ type backing struct {
 	mu      sync.Mutex
 	s       script
 	submits [][][]byte // blobs received per SubmitWithOptions call
+	tags    []string   // the options each of those calls carried (csubmit: "A" / "B" name the caller)
 	gets    []int      // number of ids per Get call
 	idsN    int        // GetIDs calls
+
+	// answer `wait` (xsubmit) and the DA-side gate (csubmit gate=da): a call parks inside the DA layer
+	w *waitState
+}
+
+// waitState is one armed wait: the call that parks announces itself on entered and goes on when its context
+// ends (a DA layer that honours its context drops the batch then) or when release is closed (the DA layer
+// "produced its block": the batch is stored).
+type waitState struct {
+	parkTag  string        // "" = every call parks (answer wait); else only the call whose options equal it
+	entered  chan struct{} // a call is parked
+	release  chan struct{} // closed by the op
+	finished chan struct{} // the parked call has left the DA layer
+	saw      bool          // the parked call ended because its context was cancelled
+	stored   [][]byte      // what the DA layer holds afterwards
+	didStore bool
 }
 
 func (b *backing) reset(s script) {
 	b.mu.Lock()
 	defer b.mu.Unlock()
-	b.s, b.submits, b.gets, b.idsN = s, nil, nil, 0
+	b.s, b.submits, b.tags, b.gets, b.idsN, b.w = s, nil, nil, nil, 0, nil
+}
+
+// arm prepares one parked call (after reset).
+func (b *backing) arm(parkTag string) *waitState {
+	w := &waitState{parkTag: parkTag, entered: make(chan struct{}, 8), release: make(chan struct{}), finished: make(chan struct{})}
+	b.mu.Lock()
+	b.w = w
+	b.mu.Unlock()
+	return w
+}
+
+// callsOf returns what the calls tagged `tag` carried.
+func (b *backing) callsOf(tag string) [][][]byte {
+	b.mu.Lock()
+	defer b.mu.Unlock()
+	var out [][][]byte
+	for i, t := range b.tags {
+		if t == tag {
+			out = append(out, b.submits[i])
+		}
+	}
+	return out
 }
 
 func mkID(h uint64, i int) []byte {
@@ -106,8 +145,8 @@ func blobOf(i int) []byte { return bytes.Repeat([]byte{byte(i + 1)}, (i*7)%5) }
 
 func (b *backing) SubmitWithOptions(ctx context.Context, blobs []coreda.Blob, gp float64, ns []byte, opts []byte) ([]coreda.ID, error) {
 	b.mu.Lock()
-	defer b.mu.Unlock()
 	if err := ctx.Err(); err != nil {
+		b.mu.Unlock()
 		return nil, err
 	}
 	cp := make([][]byte, len(blobs))
@@ -115,6 +154,40 @@ func (b *backing) SubmitWithOptions(ctx context.Context, blobs []coreda.Blob, gp
 		cp[i] = append([]byte{}, blobs[i]...)
 	}
 	b.submits = append(b.submits, cp)
+	b.tags = append(b.tags, string(opts))
+	w := b.w
+	if w != nil && (w.parkTag == "" || w.parkTag == string(opts)) {
+		// park without the lock: other calls go on meanwhile
+		b.w = nil // one parked call per armed wait
+		sub, h := b.s.Sub, b.s.H
+		b.mu.Unlock()
+		w.entered <- struct{}{}
+		if sub == "wait" {
+			defer close(w.finished)
+			select {
+			case <-ctx.Done():
+				b.mu.Lock()
+				w.saw = true
+				b.mu.Unlock()
+				return nil, ctx.Err()
+			case <-w.release:
+				b.mu.Lock()
+				w.stored, w.didStore = cp, true
+				b.mu.Unlock()
+				ids := make([]coreda.ID, len(blobs))
+				for i := range ids {
+					ids[i] = mkID(h, i)
+				}
+				return ids, nil
+			}
+		}
+		<-w.release // csubmit gate=da: the request has been received, the answer is held back
+		b.mu.Lock()
+	}
+	defer b.mu.Unlock()
+	if b.s.Sub == "wait" {
+		return nil, errors.New("bad script") // not armed
+	}
 	kind, arg, _ := strings.Cut(b.s.Sub, ":")
 	switch kind {
 	case "ok":
